@@ -39,7 +39,7 @@ func c04Gen(idx int) c04Case {
 	nts := [][2]int{{3, 2}, {4, 3}, {5, 3}, {4, 2 + 1}, {7, 4}, {5, 4}}
 	nt := nts[rng.Intn(len(nts))]
 	c := c04Case{Index: idx, Scheme: schemes[idx%len(schemes)].Name, N: nt[0], Thr: nt[1], PeriodS: rng.Range(2, 5), Seed: seed,
-		Pattern: []string{"regular", "bursts", "stalls", "substeps", "mixed", "parked-tick", "restart", "parked-tick"}[(idx/len(schemes))%8],
+		Pattern: []string{"regular", "bursts", "stalls", "substeps", "mixed", "parked-tick", "restart", "parked-tick", "blackout-slow-clock"}[(idx/len(schemes))%9],
 		Rounds:  rng.Range(8, vfPick(16, 40))}
 	c.CatchupS = []int{0, 1}[rng.Intn(2)]
 	c.SkewS = make([]int, c.N)
@@ -64,7 +64,19 @@ func c04Gen(idx int) c04Case {
 			c.Thr = c.N - 1
 		}
 	}
-	if f := c.N - c.Thr; f > 0 && rng.Chance(60) && c.Pattern != "parked-tick" {
+	if c.Pattern == "blackout-slow-clock" {
+		// one node lives two periods behind the others; after an outage of the whole network everybody catches up
+		// together at the catch-up rate, and the slow node's head overtakes its own clock while its catch-up timer runs
+		for i := range c.SkewS {
+			c.SkewS[i] = 0
+		}
+		c.SkewS[rng.Intn(c.N)] = -2 * c.PeriodS
+		c.CatchupS = 1
+		if c.Thr > c.N-1 {
+			c.Thr = c.N - 1
+		}
+	}
+	if f := c.N - c.Thr; f > 0 && rng.Chance(60) && c.Pattern != "parked-tick" && c.Pattern != "blackout-slow-clock" {
 		c.Corrupt = []int{c.N - 1}
 		c.SkewS[c.N-1] = 0
 	}
@@ -208,6 +220,27 @@ func c04Run(run *vfRun, c c04Case) {
 				}
 				nt.Step(d)
 				left -= d
+			}
+		case "blackout-slow-clock":
+			if r == 3 {
+				nt.mu.Lock()
+				nt.dropPct = 100
+				nt.mu.Unlock()
+				for k := 0; k < rng.Range(3, 5); k++ {
+					nt.Step(period)
+				}
+				nt.mu.Lock()
+				nt.dropPct = 0
+				nt.mu.Unlock()
+				run.Count("network_wide_outages_with_one_slow_clock", 1)
+				// the catch-up, second by second
+				for k := 0; k < 8*c.PeriodS; k++ {
+					nt.Step(time.Second)
+					time.Sleep(2 * time.Millisecond)
+					nt.Settle()
+				}
+			} else {
+				nt.Step(period)
 			}
 		case "restart":
 			nt.Step(period)
